@@ -379,6 +379,20 @@ class RenderContext:
             finally:
                 self.loops.pop()
 
+    @contextmanager
+    def loop_iterations(self, length: int) -> Iterator[RenderContext]:
+        """Count _length_ towards the loop iteration limit of nested loops.
+
+        For tags that repeat a block without pushing a `ForLoop` on to the loop
+        stack, like `tablerow` or `include` with a bound array.
+        """
+        carry = self.loop_iteration_carry
+        self.loop_iteration_carry = carry * max(length, 1)
+        try:
+            yield self
+        finally:
+            self.loop_iteration_carry = carry
+
     def parentloop(self) -> Union[Undefined, object]:
         """Return the last ForLoop object from the loop stack."""
         try:
